@@ -16,13 +16,19 @@
    [C02_before_return_refuted] = D43); (c) in full; for (b) the part "exit()
    closes in the reverse of the un-rotated deque, remove() likewise" in full
    ([C02_close_in_list_order], [C02_exit_reverse_deque], [C02_final_exit_partial]);
-   the remaining link "un-rotated deque order = enter order" is false when
-   extend() runs while not-yet-run deeds remain in a pass (open finding D3,
-   [C02_reverse_enter_order_refuted]) and is NOT PROVED for the complementary
-   class — it is checked by the correspondence and the trace oracle on every run. *)
+   the remaining link "un-rotated deque order = enter order" is proved for all
+   programs of class W that never call extend() ([C02_reverse_enter_order_partial],
+   [C02_deques_in_enter_order_partial]) and is false with extend() (open finding
+   D3, [C02_reverse_enter_order_refuted]): an extend() issued from inside a pass
+   puts the new deed before the caller's own deed (which is in hand and is
+   re-appended after the call) and before the not-yet-run ones, and an extend()
+   of one's own DoDoer during its enter puts it before the caller's deed likewise;
+   hence "no extend()" is the static class; runs with extend() are covered by the
+   correspondence and the trace oracle (D3 classified). *)
 From Hio Require Import Base.Prelude Base.AMap Base.Time Model.Sched Proofs.SchedLife Proofs.SchedTop
   Proofs.SchedDeque Proofs.SchedDequeHold Proofs.SchedDequeAll Proofs.SchedDequeUniq Proofs.SchedDequeOrder
-  Proofs.SchedDequeEffects Proofs.SchedDequeTop Proofs.SchedDequeTop2.
+  Proofs.SchedDequeEffects Proofs.SchedDequeTop Proofs.SchedDequeTop2
+  Proofs.SchedDequeEpos Proofs.SchedDequeSortB Proofs.SchedDequeSortA Proofs.SchedDequeTop3.
 
 (* (a) every doer's events are complete lifecycles and the newest event is the
    DoReturn/DoRaise: every Enter has its Exit before do() returns or raises *)
@@ -129,6 +135,47 @@ Theorem C02_final_exit_partial :
       tops (dids (rev (unrotate (dq s0 0%N)))) seg = dids (rev (unrotate (dq s0 0%N))).
 Proof. intros. now apply do_run_final_close. Qed.
 Print Assumptions C02_final_exit_partial.
+
+(* (b) for programs that never call extend() (class WX = W and no EExtend in any
+   script; remove(), nesting, raises, returns, limits all allowed): the state
+   handed to the final exit() has EVERY deque sorted by enter position (position
+   of the doer's newest Enter event in the trace) in its canonical un-rotated
+   order, and the root's exit() ceases the root's alive doers in the reverse of
+   it: forced exits in reverse enter order.  With C02_children_before_parent /
+   C02_exit_reverse_deque the same holds for every DoDoer closed on the way. *)
+Theorem C02_reverse_enter_order_partial :
+  forall (T : Type) (TT : Time T) (cycles fuel : nat) (p : prog T),
+    WX (p_defs p) -> oof (do_run cycles fuel p) = false ->
+    exists s0 k seg,
+      trace (do_run cycles fuel p) = {| e_kind := k; e_id := 0%N; e_tyme := tyme s0 |} :: seg ++ trace s0 /\
+      (k = DoReturn \/ k = DoRaise) /\
+      tops (rev (canon (dq s0 0%N))) seg = rev (canon (dq s0 0%N)) /\
+      (forall x, srt (epos s0) (canon (dq s0 x))).
+Proof. intros. now apply do_run_exit_order. Qed.
+Print Assumptions C02_reverse_enter_order_partial.
+
+Example C02_reverse_enter_order_example :
+  WXb (p_defs x_prog) = true /\ oof (do_run 10 100 x_prog) = false /\
+  kind_ids Enter (do_run 10 100 x_prog) = [1; 2; 3; 4; 5; 6]%N /\
+  kind_ids Cease (do_run 10 100 x_prog) = [5; 3; 6; 1]%N.
+Proof. exact x_prog_ok. Qed.
+
+(* the invariant behind it: the enter phase fills every deque in enter order (no
+   markers), and every pass of the root keeps every deque sorted by that order in
+   its canonical form, markers only on executing DoDoers, none left on the root *)
+Theorem C02_deques_in_enter_order_partial :
+  forall (T : Type) (TT : Time T) (fuel : nat) (p : prog T) s1 r,
+    WX (p_defs p) -> enter_own (p_tock p) fuel (init_st p) 0%N (p_doers p) = (s1, r) -> oof s1 = false ->
+    (forall x, srt (epos s1) (dids (dq s1 x)) /\ mf (dq s1 x)) /\
+    forall tk f s s' r', XF (defs s) -> GoodB (epos s1) s -> mf (dq s 0%N) ->
+      recur_pass tk f s 0%N = (s', r') -> oof s' = false -> GoodB (epos s1) s' /\ passok r' s' 0%N.
+Proof.
+  intros T TT fuel p s1 r Wx E O. destruct (enter_phase_sorted fuel p s1 r Wx E O) as [S M]. split.
+  - intro x. split; [apply S|apply M].
+  - intros tk f s s' r' X G M0 E' O'. destruct (srtb_all tk (epos s1) f) as (_ & _ & _ & _ & _ & _ & Srp & _).
+    eapply Srp; try eassumption. split; [right; split; [reflexivity|exact (proj1 X)]|intro Hz; now destruct Hz].
+Qed.
+Print Assumptions C02_deques_in_enter_order_partial.
 
 (* (b) in full is false of the code: extend() during a pass (finding D3).
    Doers 1, 2 entered in that order, 1 extends the Doist with 3 in the first
